@@ -423,8 +423,8 @@ class Values:
                 out.add(("tuple", (V(("const", "index")), self.element_of(V(a[1]), is_async))))
             elif k == "zipped":
                 out.add(("tuple", tuple(self.element_of(v, is_async) for v in a[1])))
-            elif k == "fresh":
-                pass  # an empty container contributes no elements
+            elif k in ("fresh", "none"):
+                pass  # an empty container contributes no elements (and None is never iterated: a slot that was retired)
             elif k == "const":
                 out.add(("const", "element"))
             elif k == "libinst" and self._lib_anext(a[1]) is not None:
